@@ -244,6 +244,10 @@ func vpCheckBlockStore(st *blockHeaderStore, model []wire.BlockHeader, removed [
 		}
 	}
 
+	// a range reaching below genesis is refused, not answered with something else
+	_, _, berr := st.FetchHeaderAncestors(uint32(tipH+1), &tipHash)
+	vpAssert(berr != nil, "ancestors-below-genesis-refused")
+
 	loc, err := st.LatestBlockLocator()
 	vpAssert(vpAnd(err == nil, vpSameLocator(loc, vpRefLocator(model, tipH))), "latest-locator")
 	mid := tipH / 2
